@@ -18,6 +18,7 @@ import QV.Proofs.Cfg
 import QV.Model.Finalize
 import QV.Proofs.BuilderInvBuild
 import QV.Proofs.BuilderInvDefBuild
+import QV.Proofs.PropDepBuild
 
 namespace QV.Props.C06
 open QV.Model QV.Model.Cfg QV.Proofs.Cfg
@@ -306,5 +307,63 @@ theorem f100_defines_before_use_old_refuted :
    _, .step (j := 5) (b := f100BodyOld.blocks[1])
         (.step (j := 1) (b := f100BodyOld.blocks[0]) .entry rfl (by decide)) rfl (by decide),
    by decide, by decide⟩
+
+end QV.Props.C06
+
+/-! ## APPENDED SECTION 2 — after `analyze_code_property_dependency` (tir/propdep.rs), for ALL programs
+
+  `tir::build` is followed, for property bindings, by the pass that inserts the `observeProperty` statements
+  (`QV.Model.analyzePropertyDependency`, the model of propdep.rs used by C02 and compared with the real IR by the
+  exact-IR stream).  The pass keeps every block's terminator and inserts only observe statements, each directly
+  before a statement that reads the observed local itself (`QV.Proofs.PropDepShape`).  Hence, for EVERY body, the
+  whole conclusion of `checkCfg_sound` carries over from the body the pass is given to the body it returns — on
+  every path, including the reads of the inserted statements (the sender local of an observe statement is assigned
+  on every path before it).  Composed with `build_passes_check_semantic`: the body that the C++ emitter receives
+  satisfies the C06 conclusion, for all programs. -/
+
+namespace QV.Props.C06
+open QV.Model QV.Model.Cfg QV.Proofs.Cfg QV.Proofs.PropDepShape
+
+/-- the pass changes neither the number of blocks nor any terminator, and defines no local -/
+theorem analysis_keeps_skeleton (code : CodeBody) :
+    (analyzePropertyDependency code).1.blocks.length = code.blocks.length ∧
+    (analyzePropertyDependency code).1.parameterCount = code.parameterCount ∧
+    ∀ (i : Nat) (b' : BasicBlock), (analyzePropertyDependency code).1.blocks[i]? = some b' →
+      ∃ b, code.blocks[i]? = some b ∧ b'.terminator = b.terminator ∧ defsOf b'.statements = defsOf b.statements := by
+  obtain ⟨hrel, hnp⟩ := analyze_blocks code
+  refine ⟨hrel.1, hnp, fun i b' hb' => ?_⟩
+  obtain ⟨b, hb, hann⟩ := hrel.2 i b' hb'
+  exact ⟨b, hb, hann.term, hann.defs⟩
+
+/-- **The pass preserves the C06 conclusion, for every body and every path** (`SemOk U c` = the conclusion of
+    `checkCfg_sound` for `c` with the reads of the locals in `U` exempt) -/
+theorem analysis_preserves_cfg_conclusion (U : Nat → Prop) (code : CodeBody) (h : SemOk U code) :
+    SemOk U (analyzePropertyDependency code).1 :=
+  analyze_keeps_semOk U code h
+
+/-- **The analysed body of every program satisfies the whole conclusion of `checkCfg_sound` on every path** -/
+theorem build_analyze_passes_check_semantic (ctx : Ctx) (callback : Bool) (p : Program) (code : CodeBody)
+    (h : (build ctx callback p).code = some code) (hp : (build ctx callback p).panic = none) :
+    ∀ (i : Nat) (A : List Nat), Reaches (analyzePropertyDependency code).1 i A →
+      ∃ (b : BasicBlock) (t : Terminator), (analyzePropertyDependency code).1.blocks[i]? = some b ∧ b.terminator = some t ∧
+        t ≠ Terminator.unreachable ∧
+        (∀ j ∈ successors b.terminator, j < (analyzePropertyDependency code).1.blocks.length) ∧
+        (∀ (k : Nat) (s : Statement), b.statements[k]? = some s →
+          ∀ x ∈ stmtReads s, x ∉ (build ctx callback p).userUninit → x ∈ defsOf (b.statements.take k) ++ A) ∧
+        (∀ x ∈ termReads t, x ∉ (build ctx callback p).userUninit → x ∈ defsOf b.statements ++ A) :=
+  analyze_keeps_semOk (fun x => x ∈ (build ctx callback p).userUninit) code
+    (build_passes_check_semantic ctx callback p code h hp)
+
+/-- in particular: **the sender local of every inserted observe statement is assigned on every path before it** -/
+theorem build_analyze_observe_sender_assigned (ctx : Ctx) (callback : Bool) (p : Program) (code : CodeBody)
+    (h : (build ctx callback p).code = some code) (hp : (build ctx callback p).panic = none)
+    (i : Nat) (A : List Nat) (hr : Reaches (analyzePropertyDependency code).1 i A) (b : BasicBlock)
+    (hb : (analyzePropertyDependency code).1.blocks[i]? = some b) (k : Nat) (o l : Nat) (sig : MethodInfo)
+    (hk : b.statements[k]? = some (.observeProperty o l sig)) (hu : l ∉ (build ctx callback p).userUninit) :
+    l ∈ defsOf (b.statements.take k) ++ A := by
+  obtain ⟨b0, t, hb0, _, _, _, hst, _⟩ := build_analyze_passes_check_semantic ctx callback p code h hp i A hr
+  rw [hb] at hb0
+  cases hb0
+  exact hst k _ hk l (by simp [stmtReads]) hu
 
 end QV.Props.C06
